@@ -10,6 +10,7 @@ import FlVerif.Lemmas.TermLimits
 import FlVerif.Lemmas.CodeDiscrete
 import FlVerif.Lemmas.CodeDiscreteCreate
 import FlVerif.Lemmas.CodeDiscreteLinear
+import FlVerif.Lemmas.CodeDiscreteEngine
 
 /-! # C03 — Membership functions match their documented definitions
 
@@ -737,7 +738,7 @@ theorem code_toXy (x y : Py.Disc.Coord) :
     `Py.Disc.create` says, for every kind of `xy` (text, flat list, flat tuple, tuple of two lists, dictionary, anything
     else).  For a flat list of finite numbers the term holds the pairs `Op.pairs` makes of it, and an odd number of
     entries is a `ValueError`; a flat *tuple* of numbers is taken for a pair of sequences: the term holds the
-    one-dimensional array of its first two entries (recorded behaviour, see DESIGN.md). -/
+    one-dimensional array of its first two entries (recorded behaviour of the source as it is). -/
 theorem code_discreteCreate (parse : String → Py.M (X ℚ)) (name : String) (xy : Py.Disc.XY) (height : X ℚ) :
     (match Py.Disc.create parse name xy height with
      | .error e => Gen.Code.Discrete_create.run parse name xy height {} = .error e
@@ -789,6 +790,19 @@ theorem code_constantMembership (value : X ℚ) (x : Py.Np.Nd) :
     (∃ σ, Gen.Code.Constant_membership.run value x {} = .ok σ ∧ σ.ret = some (Py.Disc.fullLike x value)) ∧
     (∀ v, Py.Disc.fullLike (.scalar v) value = .scalar value) :=
   Py.Disc.code_constantMembership value x
+
+/-- the `Linear` and `Discrete` branches of the engine model (`Op.Engine.membership`, the model of C01 / C02 / C13) are
+    these two component models: with `n` input values, `n` or `n + 1` coefficients give `Op.Weighted.linear` and any
+    other number fails; finite coordinate pairs (at least one) give `Op.discrete` -/
+theorem engine_model_linear_discrete {α : Type} [Field α] [LinearOrder α] [IsStrictOrderedRing α] (F : Fn α)
+    (inputs : List (X α)) (name : String) (x : X α) :
+    (∀ cs : List (X α), Op.Engine.membership F inputs (.linear name cs) x =
+      if cs.length = inputs.length ∨ cs.length = inputs.length + 1 then some (Op.Weighted.linear cs inputs) else none) ∧
+    (∀ (pts : List (α × α)) (h : X α), pts ≠ [] →
+      Op.Engine.membership F inputs (.discrete name (pts.map (fun p => X.fin p.1)) (pts.map (fun p => X.fin p.2)) h) x =
+        some (Op.discrete pts h x)) :=
+  ⟨fun cs => Op.Engine.membership_linear F inputs name cs x,
+   fun pts h hne => Op.Engine.membership_discrete F inputs name pts hne h x⟩
 
 /-! ## non-vacuity: the hypotheses are met by concrete terms -/
 example : (Term.triangle (.fin (0 : ℝ)) (1 / 2) (.fin 1) (9 / 10)).Valid := by
